@@ -6,7 +6,8 @@ from eqlvc.__main__ import run_tasks
 import contracts.registry as reg
 
 only = sys.argv[1:]
-tasks = [(c.__name__, m) for c in reg.all_contracts() for m in c.modes if not only or c.__name__ in only]
+tasks = [(c.__name__, m) for c in reg.all_contracts() for m in c.modes
+         if (c.__name__ in only) or (not only and 'quick' in getattr(c, 'tiers', ('quick',)))]
 t0 = time.time()
 res = run_tasks(tasks, 16)
 bad = 0
